@@ -82,6 +82,9 @@ def detect_one(mid):
     try:
         rc, o = sh("git apply %s" % os.path.join(d, "patch.diff"), cwd=wt)
         if rc != 0:
+            # the tree moved on since the variant was recorded (fix: commits): three-way merge
+            rc, o = sh("git apply --3way %s" % os.path.join(d, "patch.diff"), cwd=wt)
+        if rc != 0:
             return mid, {"error": "patch does not apply on current HEAD: " + o[-200:]}
         res = {}
         for p in PROPS:
